@@ -40,36 +40,58 @@ theorem sadd_existing_set_semantics (c : Ctx) (s : State) (k : Bytes) (ms es : L
   exact ⟨s', (setAdd ms es).1, (setAdd ms es).2, h1, h2, mem_setAdd ms es, nodup_setAdd ms es hnd,
     length_setAdd ms es, setAdd_prefix ms es⟩
 
-/-- **SADD on an absent key** (named elements pairwise distinct): replies their number and stores exactly
-    them, without a deadline. Partial: with repeated elements the reply counts the repeats
-    (class `sadd-new-key-counts-duplicates`). -/
-theorem sadd_new_key_partial (c : Ctx) (s : State) (k : Bytes) (es : List Bytes) (hm : c.cfg.maxMemory = 0)
-    (h : s.lookup c.db k = none) (hes : es ≠ []) (hnd : es.Nodup) :
-    ∃ s', (handleSAdd c (b "sadd" :: k :: es)).run c s = (s', .done (.ok (intReply es.length))) ∧
-      s'.lookup c.db k = some ⟨.set 0 es, none⟩ ∧
+/-- **SADD on an absent key** replies the count computed by Set.Add on the fresh set (the cardinality of the
+    set just created) and stores exactly the members computed by Set.Add, without a deadline, every other key
+    untouched — for every list of elements, repeated ones included. -/
+theorem sadd_new_key (c : Ctx) (s : State) (k : Bytes) (es : List Bytes) (hm : c.cfg.maxMemory = 0)
+    (h : s.lookup c.db k = none) (hes : es ≠ []) :
+    ∃ s', (handleSAdd c (b "sadd" :: k :: es)).run c s = (s', .done (.ok (intReply (setAdd [] es).2))) ∧
+      s'.lookup c.db k = some ⟨.set 0 (setAdd [] es).1, none⟩ ∧
       ∀ k2, k ≠ k2 → s'.lookup c.db k2 = s.lookup c.db k2 := by
   cases es with
   | nil => exact absurd rfl hes
   | cons e r =>
-    refine ⟨(setValues c s [(k, .set 0 (e :: r))]).1, ?_, setValues_fresh c s k _ hm h,
+    refine ⟨(setValues c s [(k, .set 0 (setAdd [] (e :: r)).1)]).1, ?_, setValues_fresh c s k _ hm h,
       fun k2 hne => setValues_other c s k k2 _ hm hne⟩
     have hl : ¬ (r.length + 1 + 1 + 1 < 3) := by omega
-    simp [handleSAdd, hl, keysExist_single, h, setAdd_nil_nodup _ hnd, run_setOrErr_single _ _ _ _ _ hm]
-
-/-- without the distinctness hypothesis the stored set is still right (members = the named elements,
-    duplicate-free); only the reply may be wrong -/
-theorem sadd_new_key_members (c : Ctx) (s : State) (k : Bytes) (es : List Bytes) (hm : c.cfg.maxMemory = 0)
-    (h : s.lookup c.db k = none) (hes : es ≠ []) :
-    ∃ s' ms', ((handleSAdd c (b "sadd" :: k :: es)).run c s).1 = s' ∧
-      s'.lookup c.db k = some ⟨.set 0 ms', none⟩ ∧ (∀ x, x ∈ ms' ↔ x ∈ es) ∧ ms'.Nodup := by
-  cases es with
-  | nil => exact absurd rfl hes
-  | cons e r =>
-    refine ⟨(setValues c s [(k, .set 0 (setAdd [] (e :: r)).1)]).1, (setAdd [] (e :: r)).1, ?_,
-      setValues_fresh c s k _ hm h, fun x => by simpa using mem_setAdd [] (e :: r) x,
-      nodup_setAdd [] (e :: r) List.nodup_nil⟩
-    have hl : ¬ (r.length + 1 + 1 + 1 < 3) := by omega
     simp [handleSAdd, hl, keysExist_single, h, run_setOrErr_single _ _ _ _ _ hm]
+
+/-- **SADD creating the key reports and performs exactly the membership changes**: the stored set holds
+    exactly the named elements, once each, and the reply is its cardinality — the number of members actually
+    added — however often an element is repeated on the command line. -/
+theorem sadd_new_key_set_semantics (c : Ctx) (s : State) (k : Bytes) (es : List Bytes) (hm : c.cfg.maxMemory = 0)
+    (h : s.lookup c.db k = none) (hes : es ≠ []) :
+    ∃ s' ms' n, (handleSAdd c (b "sadd" :: k :: es)).run c s = (s', .done (.ok (intReply (n : Nat)))) ∧
+      s'.lookup c.db k = some ⟨.set 0 ms', none⟩ ∧
+      (∀ x, x ∈ ms' ↔ x ∈ es) ∧ ms'.Nodup ∧ ms'.length = n ∧ n = es.eraseDups.length := by
+  obtain ⟨s', h1, h2, _⟩ := sadd_new_key c s k es hm h hes
+  refine ⟨s', (setAdd [] es).1, (setAdd [] es).2, h1, h2, fun x => by simpa using mem_setAdd [] es x,
+    nodup_setAdd [] es List.nodup_nil, by simpa using length_setAdd [] es, setAdd_nil_count es⟩
+
+/-- named elements pairwise distinct: the reply is their number and they are stored as given -/
+theorem sadd_new_key_distinct (c : Ctx) (s : State) (k : Bytes) (es : List Bytes) (hm : c.cfg.maxMemory = 0)
+    (h : s.lookup c.db k = none) (hes : es ≠ []) (hnd : es.Nodup) :
+    ∃ s', (handleSAdd c (b "sadd" :: k :: es)).run c s = (s', .done (.ok (intReply es.length))) ∧
+      s'.lookup c.db k = some ⟨.set 0 es, none⟩ ∧
+      ∀ k2, k ≠ k2 → s'.lookup c.db k2 = s.lookup c.db k2 := by
+  have := sadd_new_key c s k es hm h hes
+  rwa [setAdd_nil_nodup es hnd] at this
+
+/-- **SADD's reply is the number of members actually added, on every input**: whether the key is absent
+    (`old = []`) or holds a live duplicate-free set `old`, the set afterwards holds exactly the old members
+    and the named elements, is duplicate-free, and has grown by exactly the number SADD answered. -/
+theorem sadd_reply_counts_added (c : Ctx) (s : State) (k : Bytes) (old es : List Bytes) (hm : c.cfg.maxMemory = 0)
+    (hes : es ≠ []) (hnd : old.Nodup)
+    (h : (s.lookup c.db k = none ∧ old = []) ∨
+         ∃ ex, s.lookup c.db k = some ⟨.set 0 old, ex⟩ ∧ (⟨.set 0 old, ex⟩ : Entry).expired c.now = false) :
+    ∃ s' ms' ex' n, (handleSAdd c (b "sadd" :: k :: es)).run c s = (s', .done (.ok (intReply (n : Nat)))) ∧
+      s'.lookup c.db k = some ⟨.set 0 ms', ex'⟩ ∧
+      (∀ x, x ∈ ms' ↔ x ∈ old ∨ x ∈ es) ∧ ms'.Nodup ∧ ms'.length = old.length + n := by
+  rcases h with ⟨h0, rfl⟩ | ⟨ex, h1, hlive⟩
+  · obtain ⟨s', ms', n, r1, r2, r3, r4, r5, _⟩ := sadd_new_key_set_semantics c s k es hm h0 hes
+    exact ⟨s', ms', none, n, r1, r2, fun x => by simpa using r3 x, r4, by simpa using r5⟩
+  · obtain ⟨s', ms', n, r1, r2, r3, r4, r5, _⟩ := sadd_existing_set_semantics c s k old es ex h1 hlive hes hnd
+    exact ⟨s', ms', ex, n, r1, r2, r3, r4, r5⟩
 
 /-! ### SREM -/
 
@@ -234,7 +256,7 @@ theorem sismember_after_sadd_new (c : Ctx) (s : State) (k m : Bytes) (es : List 
     ((handleSIsMember c [b "sismember", k, m]).run c ((handleSAdd c (b "sadd" :: k :: es)).run c s).1).2
       = .done (.ok (intReply 1)) := by
   have hes : es ≠ [] := by intro h0; subst h0; cases hm
-  obtain ⟨s', ms', h1, h2, h3, _⟩ := sadd_new_key_members c s k es hmm h hes
+  obtain ⟨s', ms', _, h1, h2, h3, _⟩ := sadd_new_key_set_semantics c s k es hmm h hes
   rw [h1, sismember_reports c s' k m ms' none h2 rfl]
   simp [(h3 m).mpr hm]
 
@@ -453,6 +475,18 @@ theorem sintercard_single (c : Ctx) (s : State) (k : Bytes) (ms : List Bytes) (e
   simp [handleSInter, sinterReads, keysExist_single, h, sinterLimit, nthPerm_single, interLoop,
     getValues_live _ _ _ _ h hlive, asSet?, sinterTail, interAll, sintercard_name_facts, p.1, p.2, List.findIdx?_cons]
 
+/-- **SINTERCARD k LIMIT n** (n > 0) **on one key: that set's size capped at `n`** — LIMIT bounds the answer
+    whatever the number of keys -/
+theorem sintercard_single_limit (c : Ctx) (s : State) (k l : Bytes) (n : Nat) (ms : List Bytes) (ex : Option Int)
+    (p : PlainKey k) (hl : isAscii l = true) (hn : adaptType l = .int (n : Int)) (hpos : 0 < n)
+    (h : s.lookup c.db k = some ⟨.set 0 ms, ex⟩) (hlive : (⟨.set 0 ms, ex⟩ : Entry).expired c.now = false) :
+    (handleSInter 2 c [b "sintercard", k, b "limit", l]).run c s
+      = (s, .done (.ok (intReply ((min n ms.length : Nat) : Int)))) := by
+  simp [handleSInter, sinterReads, keysExist_single, h, sinterLimit, nthPerm_single, interLoop,
+    getValues_live _ _ _ _ h hlive, asSet?, sinterTail, interAll, sintercard_name_facts, p.1, p.2, List.findIdx?_cons,
+    hl, hn, hpos]
+  congr 1; split <;> omega
+
 /-- **SINTERCARD k1 k2** (distinct keys, both live sets, no LIMIT): the number of common members -/
 theorem sintercard_two (c : Ctx) (s : State) (k1 k2 : Bytes) (m1 m2 : List Bytes) (e1 e2 : Option Int)
     (hne : k1 ≠ k2) (p1 : PlainKey k1) (p2 : PlainKey k2)
@@ -469,11 +503,11 @@ theorem sintercard_two (c : Ctx) (s : State) (k1 k2 : Bytes) (m1 m2 : List Bytes
   rcases nthPerm_pair c.order (k1, true) (k2, true) with hp | hp
   · rw [hp, run_interLoop_two c s k1 k2 m1 m2 e1 e2 _ _ h1 l1 h2 l2]
     refine ⟨inter2 0 m1 m2, ?_, mem_inter2_zero m1 m2, fun hn _ => nodup_inter2_zero m1 m2 hn⟩
-    simp [sinterTail]
+    simp [sinterTail, interAll]
   · rw [hp, run_interLoop_two c s k2 k1 m2 m1 e2 e1 _ _ h2 l2 h1 l1]
     refine ⟨inter2 0 m2 m1, ?_, fun x => (mem_inter2_zero m2 m1 x).trans And.comm,
       fun _ hn => nodup_inter2_zero m2 m1 hn⟩
-    simp [sinterTail]
+    simp [sinterTail, interAll]
 
 /-- **SINTERCARD k1 k2 LIMIT n** (n > 0): the number of common members capped at `n` -/
 theorem sintercard_two_limit (c : Ctx) (s : State) (k1 k2 l : Bytes) (n : Nat) (m1 m2 : List Bytes) (e1 e2 : Option Int)
@@ -493,11 +527,115 @@ theorem sintercard_two_limit (c : Ctx) (s : State) (k1 k2 l : Bytes) (n : Nat) (
   rcases nthPerm_pair c.order (k1, true) (k2, true) with hp | hp
   · rw [hp, run_interLoop_two c s k1 k2 m1 m2 e1 e2 _ _ h1 l1 h2 l2]
     refine ⟨inter2 0 m1 m2, ?_, mem_inter2_zero m1 m2, fun hn _ => nodup_inter2_zero m1 m2 hn⟩
-    simp [sinterTail, hpos, inter2, List.length_take]
+    simp [sinterTail, interAll, hpos, inter2, List.length_take]
+    congr 1; split <;> omega
   · rw [hp, run_interLoop_two c s k2 k1 m2 m1 e2 e1 _ _ h2 l2 h1 l1]
     refine ⟨inter2 0 m2 m1, ?_, fun x => (mem_inter2_zero m2 m1 x).trans And.comm,
       fun _ hn => nodup_inter2_zero m2 m1 hn⟩
-    simp [sinterTail, hpos, inter2, List.length_take]
+    simp [sinterTail, interAll, hpos, inter2, List.length_take]
+    congr 1; split <;> omega
+
+/-- **SINTERCARD over any number of sets, with or without LIMIT** (what the handler does once its operand loop
+    has read the sets, in whatever order the operand map was walked): the answer is the number of members common
+    to *every* set — capped at the limit when one is given (`limit > 0`), and by nothing else. In particular a
+    LIMIT over three or more sets no longer answers with the size of a partial intersection. -/
+theorem sintercard_tail (limit : Nat) (src dest : Bytes) (sets : List (Nat × List Bytes)) (hne : sets ≠ []) :
+    ∃ r : List Bytes,
+      sinterTail 2 limit src dest sets = .ret (.ok (intReply ((if 0 < limit then min limit r.length else r.length : Nat) : Int))) ∧
+      (∀ x, x ∈ r ↔ ∀ st ∈ sets, x ∈ st.2) ∧ ((∀ st ∈ sets, st.2.Nodup) → r.Nodup) := by
+  refine ⟨interAll sets.length (sets.map (·.2)), ?_, fun x => ?_, fun h => nodup_interAll _ _ (by
+      intro a ha; obtain ⟨st, hs, rfl⟩ := List.mem_map.mp ha; exact h st hs)⟩
+  · have he : sets.isEmpty = false := by cases sets with
+      | nil => exact absurd rfl hne
+      | cons a r => rfl
+    simp only [sinterTail, he]
+    by_cases hl : 0 < limit
+    · by_cases h2 : sets.length ≥ 2
+      · simp [hl, h2, List.length_take]
+        congr 1; split <;> omega
+      · simp [hl, h2]
+        congr 1; split <;> omega
+    · have h0 : limit = 0 := by omega
+      subst h0; simp
+  · have hm : sets.map (·.2) ≠ [] := by simpa using hne
+    rw [mem_interAll x sets.length (sets.map (·.2)) hm (by simp)]
+    constructor
+    · intro h st hs; exact h st.2 (List.mem_map.mpr ⟨st, hs, rfl⟩)
+    · intro h a ha; obtain ⟨st, hs, rfl⟩ := List.mem_map.mp ha; exact h st hs
+
+/-- **SINTERCARD k₁ … kₙ LIMIT l** — any number of pairwise distinct keys, each a live set, walked in whatever
+    order the operand map yields: the answer is the number of members common to *all* the sets named, capped at
+    the limit when it is positive (`LIMIT 0` = no cap), and the state is unchanged. Covers one key (the limit
+    used to be ignored) and three or more (a partial intersection used to be returned) alike. -/
+theorem sintercard_many_limit (c : Ctx) (s : State) (ks : List Bytes) (mem : Bytes → List Bytes) (l : Bytes) (n : Nat)
+    (hks : ks ≠ []) (hnd : ks.Nodup) (hp : ∀ k ∈ ks, PlainKey k) (hl : isAscii l = true)
+    (hn : adaptType l = .int (n : Int))
+    (hlive : ∀ k ∈ ks, ∃ ex, s.lookup c.db k = some ⟨.set 0 (mem k), ex⟩ ∧
+      (⟨.set 0 (mem k), ex⟩ : Entry).expired c.now = false) :
+    ∃ r : List Bytes,
+      (handleSInter 2 c (b "sintercard" :: (ks ++ [b "limit", l]))).run c s
+        = (s, .done (.ok (intReply ((if 0 < n then min n r.length else r.length : Nat) : Int)))) ∧
+      (∀ x, x ∈ r ↔ ∀ k ∈ ks, x ∈ mem k) ∧ ((∀ k ∈ ks, (mem k).Nodup) → r.Nodup) := by
+  obtain ⟨cmd, hcmd⟩ : ∃ cmd, cmd = b "sintercard" :: (ks ++ [b "limit", l]) := ⟨_, rfl⟩
+  rw [← hcmd]
+  have hlen : 1 ≤ ks.length := by cases ks with
+    | nil => exact absurd rfl hks
+    | cons a r => simp
+  have h1 : ¬ (cmd.length < 2) := by rw [hcmd]; simp
+  have hall : cmd.all isAscii = true := by
+    rw [hcmd]; simp [sintercard_name_facts, hl]
+    exact fun k hk => (hp k hk).1
+  have hidx : cmd.findIdx? (fun t => eqFold t (b "limit")) = some (ks.length + 1) := by
+    rw [hcmd, List.findIdx?_cons]
+    simp only [sintercard_name_facts]
+    rw [findIdx?_skip _ ks _ (fun k hk => (hp k hk).2)]
+    simp [List.findIdx?_cons, sintercard_name_facts]
+  have hreads : sinterReads 2 cmd = ks := by
+    simp only [sinterReads, hidx]
+    rw [hcmd]; simp
+  have hlim : sinterLimit cmd (some (ks.length + 1)) = .ok (n : Int) := by
+    have hlt : ¬ (ks.length + 1 < 2) := by omega
+    have hget : cmd[ks.length + 1 + 1]? = some l := by
+      rw [hcmd]; simp
+    simp only [sinterLimit, hlt, if_false, hget, hn]
+  have hex : keysExist s c.db ks = ks.map fun _ => true := by
+    unfold keysExist
+    apply List.map_congr_left
+    intro k hk
+    obtain ⟨ex, h, _⟩ := hlive k hk
+    simp [h]
+  have hrun : (handleSInter 2 c cmd).run c s =
+      (interLoop (nthPerm c.order (ks.map fun k => (k, true))) (.ok (intReply 0))
+        (sinterTail 2 n ((nthPerm c.order (ks.map fun k => (k, true))).headD ([], false)).1 (cmd.getD 1 []))).run c s := by
+    simp [handleSInter, h1, hall, hidx, hreads, hlim, eraseDups_of_nodup ks hnd, hex, zip_map_true]
+  rw [hrun]
+  have hperm := nthPerm_perm c.order (ks.map fun k => (k, true))
+  have hL : ∀ p ∈ nthPerm c.order (ks.map fun k => (k, true)), p.2 = true ∧
+      ∃ ex, s.lookup c.db p.1 = some ⟨.set 0 (mem p.1), ex⟩ ∧ (⟨.set 0 (mem p.1), ex⟩ : Entry).expired c.now = false := by
+    intro p hp'
+    obtain ⟨k, hk, rfl⟩ := List.mem_map.mp (hperm.mem_iff.mp hp')
+    exact ⟨rfl, hlive k hk⟩
+  rw [run_interLoop_all c s mem _ _ _ hL]
+  have hne : ((nthPerm c.order (ks.map fun k => (k, true))).map fun p => ((0 : Nat), mem p.1)) ≠ [] := by
+    intro h0
+    have := congrArg List.length h0
+    simp only [List.length_map, hperm.length_eq, List.length_nil] at this
+    omega
+  obtain ⟨r, hr, hmem, hnodup⟩ := sintercard_tail n ((nthPerm c.order (ks.map fun k => (k, true))).headD ([], false)).1
+    (cmd.getD 1 []) _ hne
+  refine ⟨r, by rw [hr]; rfl, fun x => ?_, fun h => hnodup ?_⟩
+  · rw [hmem]
+    constructor
+    · intro h k hk
+      exact h (0, mem k) (List.mem_map.mpr ⟨(k, true), hperm.mem_iff.mpr (List.mem_map.mpr ⟨k, hk, rfl⟩), rfl⟩)
+    · intro h st hst
+      obtain ⟨p, hp', rfl⟩ := List.mem_map.mp hst
+      obtain ⟨k, hk, rfl⟩ := List.mem_map.mp (hperm.mem_iff.mp hp')
+      exact h k hk
+  · intro st hst
+    obtain ⟨p, hp', rfl⟩ := List.mem_map.mp hst
+    obtain ⟨k, hk, rfl⟩ := List.mem_map.mp (hperm.mem_iff.mp hp')
+    exact h k hk
 
 /-- SINTERCARD with an absent operand answers 0, state unchanged -/
 theorem sintercard_absent_operand (c : Ctx) (s : State) (k1 k2 : Bytes) (m1 : List Bytes) (e1 : Option Int)
@@ -948,11 +1086,14 @@ theorem smove_wrongtype (c : Ctx) (s : State) (src dst m : Bytes) (v : Val) (sm 
 
 /-! ### where the full statement fails (model witnesses; each is a class of Known.lean `classifyColl`) -/
 
-/-- class `sadd-new-key-counts-duplicates`: SADD k a a on an absent key replies 2 though one member was added -/
-theorem sadd_new_key_counts_duplicates_witness :
+/-- repaired upstream (was the witness of class `sadd-new-key-counts-duplicates`, where the reply was the number
+    of arguments): SADD k a a on an absent key adds one member and replies 1; SADD k x x y replies 2 -/
+theorem sadd_new_key_duplicates_replay :
     let c : Ctx := { db := 0, now := 1000 }
     let r := (handleSAdd c [b "sadd", b "k", b "a", b "a"]).run c { dbs := [], mem := 0 }
-    r.2 = .done (.ok (b ":2\r\n")) ∧ r.1.lookup 0 (b "k") = some ⟨.set 0 [b "a"], none⟩ := by decide
+    r.2 = .done (.ok (b ":1\r\n")) ∧ r.1.lookup 0 (b "k") = some ⟨.set 0 [b "a"], none⟩ ∧
+    ((handleSAdd c [b "sadd", b "k", b "x", b "x", b "y"]).run c { dbs := [], mem := 0 }).2 = .done (.ok (b ":2\r\n")) := by
+  decide
 
 /-- repaired upstream (was the witness of class `empty-array-without-terminator`): SADD k a; SREM k a leaves a
     stored empty set, on which SMEMBERS now answers the terminated empty array -/
@@ -969,11 +1110,27 @@ theorem spop_zero_count_replay :
     let s : State := { dbs := [(0, ⟨[(b "k", ⟨.set 0 [b "a", b "b"], none⟩)], []⟩)], mem := 0 }
     (handleSPop c [b "spop", b "k", b "0"]).run c s = (s, .done (.ok (b "*0\r\n"))) := by decide
 
-/-- class `sintercard-single-key-ignores-limit`: SINTERCARD k LIMIT 1 on a two-member set answers 2 -/
-theorem sintercard_single_key_ignores_limit_witness :
+/-- repaired upstream (was the witness of class `sintercard-single-key-ignores-limit`, where the answer was 2):
+    SINTERCARD k LIMIT 1 on a two-member set answers 1; a LIMIT above the cardinality leaves it alone -/
+theorem sintercard_single_key_limit_replay :
     let c : Ctx := { db := 0, now := 1000 }
     let s : State := { dbs := [(0, ⟨[(b "k", ⟨.set 0 [b "a", b "b"], none⟩)], []⟩)], mem := 0 }
-    ((handleSInter 2 c [b "sintercard", b "k", b "limit", b "1"]).run c s).2 = .done (.ok (b ":2\r\n")) := by decide
+    ((handleSInter 2 c [b "sintercard", b "k", b "limit", b "1"]).run c s).2 = .done (.ok (b ":1\r\n")) ∧
+    ((handleSInter 2 c [b "sintercard", b "k", b "limit", b "5"]).run c s).2 = .done (.ok (b ":2\r\n")) := by decide
+
+/-- repaired upstream (was the witness of class `sintercard-limit-over-three-sets-stops-early`, where the answer
+    was 1): three sets that intersect pairwise in two members and have no common member — SINTERCARD ta tb tc
+    LIMIT 1 answers 0 in whatever order the operands are walked; and with a common member added to all three,
+    LIMIT 1 answers 1 and LIMIT 5 the true cardinality 1 -/
+theorem sintercard_limit_three_sets_replay :
+    let st (x : List Bytes) : State := { dbs := [(0, ⟨[(b "ta", ⟨.set 0 ([b "p", b "q", b "r", b "s"] ++ x), none⟩),
+      (b "tb", ⟨.set 0 ([b "p", b "q", b "t", b "u"] ++ x), none⟩), (b "tc", ⟨.set 0 ([b "r", b "s", b "t", b "u"] ++ x), none⟩)], []⟩)], mem := 0 }
+    (∀ o, o < 6 → ((handleSInter 2 { db := 0, now := 1000, order := o } [b "sintercard", b "ta", b "tb", b "tc", b "limit", b "1"]).run
+        { db := 0, now := 1000, order := o } (st [])).2 = .done (.ok (b ":0\r\n"))) ∧
+    (∀ o, o < 6 → ((handleSInter 2 { db := 0, now := 1000, order := o } [b "sintercard", b "ta", b "tb", b "tc", b "limit", b "1"]).run
+        { db := 0, now := 1000, order := o } (st [b "z"])).2 = .done (.ok (b ":1\r\n"))) ∧
+    (∀ o, o < 6 → ((handleSInter 2 { db := 0, now := 1000, order := o } [b "sintercard", b "ta", b "tb", b "tc", b "limit", b "5"]).run
+        { db := 0, now := 1000, order := o } (st [b "z"])).2 = .done (.ok (b ":1\r\n"))) := by decide
 
 /-- class `sinterstore-absent-operand-keeps-destination`: SINTERSTORE d a missing answers 0 but leaves the old
     destination in place instead of replacing it with the empty result -/
@@ -1047,8 +1204,12 @@ theorem plain_k : PlainKey (b "k") ∧ PlainKey (b "j") ∧ PlainKey (b "z") := 
 example := sadd_existing c0 s0 (b "k") [b "a", b "b", b "c"] [b "c", b "d"] none (by decide) (by decide) (by decide)
 example := sadd_existing_set_semantics c0 s0 (b "k") [b "a", b "b", b "c"] [b "c", b "d"] none
   (by decide) (by decide) (by decide) (by decide)
-example := sadd_new_key_partial c0 s0 (b "z") [b "a", b "b"] (by decide) (by decide) (by decide) (by decide)
-example := sadd_new_key_members c0 s0 (b "z") [b "a", b "a"] (by decide) (by decide) (by decide)
+example := sadd_new_key c0 s0 (b "z") [b "a", b "a", b "b"] (by decide) (by decide) (by decide)
+example := sadd_new_key_set_semantics c0 s0 (b "z") [b "a", b "a"] (by decide) (by decide) (by decide)
+example := sadd_new_key_distinct c0 s0 (b "z") [b "a", b "b"] (by decide) (by decide) (by decide) (by decide)
+example := sadd_reply_counts_added c0 s0 (b "z") [] [b "a", b "a"] (by decide) (by decide) (by decide) (Or.inl ⟨by decide, rfl⟩)
+example := sadd_reply_counts_added c0 s0 (b "k") [b "a", b "b", b "c"] [b "c", b "d", b "d"] (by decide) (by decide) (by decide)
+  (Or.inr ⟨none, by decide, by decide⟩)
 example := srem_existing c0 s0 (b "k") [b "a", b "b", b "c"] [b "c", b "d"] none (by decide) (by decide) (by decide)
 example := srem_existing_set_semantics c0 s0 (b "j") [b "b", b "d"] [b "d"] (some 2000)
   (by decide) (by decide) (by decide) (by decide)
@@ -1082,6 +1243,25 @@ example := sinterstore_two c0 s0 (b "z") (b "k") (b "j") [b "a", b "b", b "c"] [
   (by decide) (by decide) (by decide) (by decide) (by decide) (by decide)
 example := sintercard_two c0 s0 (b "k") (b "j") [b "a", b "b", b "c"] [b "b", b "d"] none (some 2000)
   (by decide) plain_k.1 plain_k.2.1 (by decide) (by decide) (by decide) (by decide)
+example := sintercard_single_limit c0 s0 (b "k") (b "2") 2 [b "a", b "b", b "c"] none plain_k.1 (by decide) adapt_two.1 (by decide)
+  (by decide) (by decide)
+example := sintercard_tail 1 (b "k") (b "k") [(0, [b "p", b "q"]), (0, [b "q", b "t"]), (0, [b "q", b "s"])] (by decide)
+example := sintercard_many_limit c0
+  { dbs := [(0, ⟨[(b "ta", ⟨.set 0 [b "p", b "q", b "z"], none⟩), (b "tb", ⟨.set 0 [b "q", b "t", b "z"], none⟩),
+                  (b "tc", ⟨.set 0 [b "q", b "s", b "z"], some 2000⟩)], []⟩)], mem := 0 }
+  [b "ta", b "tb", b "tc"]
+  (fun k => if k == b "ta" then [b "p", b "q", b "z"] else if k == b "tb" then [b "q", b "t", b "z"] else [b "q", b "s", b "z"])
+  (b "1") 1 (by decide) (by decide)
+  (fun k hk => by
+    simp only [List.mem_cons, List.not_mem_nil, or_false] at hk
+    rcases hk with rfl | rfl | rfl <;> exact ⟨by decide, by decide⟩)
+  (by decide) (by decide)
+  (fun k hk => by
+    simp only [List.mem_cons, List.not_mem_nil, or_false] at hk
+    rcases hk with rfl | rfl | rfl
+    · exact ⟨none, by decide, by decide⟩
+    · exact ⟨none, by decide, by decide⟩
+    · exact ⟨some 2000, by decide, by decide⟩)
 example := sintercard_two_limit c0 s0 (b "k") (b "j") (b "2") 2 [b "a", b "b", b "c"] [b "b", b "d"] none (some 2000)
   (by decide) plain_k.1 plain_k.2.1 (by decide) adapt_two.1 (by decide) (by decide) (by decide) (by decide) (by decide)
 example := sintercard_absent_operand c0 s0 (b "k") (b "z") [b "a", b "b", b "c"] none plain_k.1 plain_k.2.2
